@@ -77,9 +77,26 @@ OPTS_PROGS = [
 ]
 
 
+# C18, task-spawning async macros: a panic in a branch surfaces when the macro's future is polled, also while an earlier sibling is still pending
+# (1 = the poll panicked, 2 = timed out: the caller was left waiting, 3 = it returned a value)
+def _ap(mac, body):
+    return ('{ let rt = tokio::runtime::Builder::new_current_thread().enable_all().build().unwrap(); '
+            'let r = std::panic::catch_unwind(std::panic::AssertUnwindSafe(|| rt.block_on(async { tokio::time::timeout(std::time::Duration::from_millis(400), %s! { %s }).await.is_ok() }))); '
+            'match r { Err(_) => 1_i64, Ok(false) => 2, Ok(true) => 3 } }' % (mac, body))
+
+
+ASYNCPANIC_PROGS = [
+    ('panic-in-second-task-first-pending', 'i64', _ap('join_async_spawn', 'futures::future::pending::<i64>(), futures::future::ready(1_i64) |> |_| -> i64 { panic!("boom") }'), '1'),
+    ('panic-in-third-task-step-1-alias', 'i64', _ap('async_spawn', 'futures::future::ready(0_i64) ~..then(|_| futures::future::pending::<i64>()), futures::future::ready(1_i64) ~|> |x| x, futures::future::ready(2_i64) ~|> |_| -> i64 { panic!("boom") }'), '1'),
+    ('panic-in-second-task-try', 'i64', _ap('try_join_async_spawn', 'futures::future::pending::<Result<i64, i64>>(), futures::future::ready(Ok::<i64, i64>(1)) |> |_| -> Result<i64, i64> { panic!("boom") }'), '1'),
+    ('panic-in-second-branch-plain-async', 'i64', _ap('join_async', 'futures::future::pending::<i64>(), futures::future::ready(1_i64) |> |_| -> i64 { panic!("boom") }'), '1'),
+    ('no-panic-control', 'i64', _ap('join_async_spawn', 'futures::future::ready(1_i64), futures::future::ready(2_i64) |> |x| x + 1'), '3'),
+]
+
+
 def run(tier, which='nest'):
     global PROGS
-    PROGS = (list(BASE_PROGS) + [eighteen()]) if which == 'nest' else list(OPTS_PROGS)
+    PROGS = (list(BASE_PROGS) + [eighteen()]) if which == 'nest' else (list(OPTS_PROGS) if which == 'opts' else list(ASYNCPANIC_PROGS))
     os.makedirs(os.path.join(RT, 'src', 'bin'), exist_ok=True)
     shutil.copyfile(os.path.join(jv.REPO, 'Cargo.lock'), os.path.join(RT, 'Cargo.lock'))
     live = list(PROGS)
